@@ -32,17 +32,25 @@ class MultichainPolicyIteration(Plans):
             action_matrix=mdp.action_matrix.astype(bool),
             max_iterations=self.max_iterations
         )
-        state_gain, action_gain, state_bias, action_bias, _, iterations = results
-        # the tie tolerance scales with the magnitude of the tables (round-off does too), and the
-        # value maximisers are taken among the gain maximisers so that no row comes out empty
-        finite = np.concatenate([action_gain[np.isfinite(action_gain)], action_bias[np.isfinite(action_bias)]])
-        atol = 10**(-self.VALUE_DECIMAL_PRECISION)*max(1, np.abs(finite).max(initial=0))
+        state_gain, action_gain, state_bias, action_bias, final_policy, iterations = results
+        # the tie tolerance scales with the magnitude of each row (round-off does too)
         max_gain = action_gain.max(-1, keepdims=True)
-        gain_max_actions = np.isclose(action_gain, max_gain, atol=atol, rtol=0)
-        gain_max_bias = np.where(gain_max_actions, action_bias, -np.inf)
-        max_bias = gain_max_bias.max(-1, keepdims=True)
-        bias_max_actions = np.isclose(gain_max_bias, max_bias, atol=atol, rtol=0)
+        gain_max_actions = np.isclose(
+            action_gain, max_gain,
+            atol=10**(-self.VALUE_DECIMAL_PRECISION)*np.maximum(1, np.abs(max_gain)),
+            rtol=0
+        )
+        max_bias = action_bias.max(-1, keepdims=True)
+        bias_max_actions = np.isclose(
+            action_bias, max_bias,
+            atol=10**(-self.VALUE_DECIMAL_PRECISION)*np.maximum(1, np.abs(max_bias)),
+            rtol=0
+        )
         policy_matrix = gain_max_actions & bias_max_actions
+        # round-off can leave no action that maximises both tables; such a state
+        # keeps the action the iteration stopped with
+        empty = ~policy_matrix.any(-1)
+        policy_matrix[empty, final_policy[empty]] = True
         policy_matrix = policy_matrix/policy_matrix.sum(-1, keepdims=True)
         policy=TabularPolicy.from_state_action_lists(
             state_list=mdp.state_list,
